@@ -110,6 +110,13 @@ def Schema.impls (S : Schema) (i : String) : List String :=
 
 /-! ## Construction-time acceptance (`schema.New`) -/
 
+/-- `introspection.NamedTypes` (the fallback of both `namedType` functions). -/
+def introspectionKind (n : String) : Option Kind :=
+  if n == "__Schema" || n == "__Type" || n == "__Field" || n == "__InputValue" || n == "__EnumValue" || n == "__Directive" then some .object
+  else if n == "__TypeKind" || n == "__DirectiveLocation" then some .enum
+  else none
+
+
 def isOutputKind : Kind → Bool
   | .input => false
   | _ => true
@@ -202,9 +209,12 @@ def Schema.typeOk (S : Schema) (t : TypeDef) : Bool :=
   | .enum => !t.values.isEmpty && decide (t.values.Nodup)
   | .scalar => true
 
-/-- `schema.New` accepts the definition. -/
+/-- `schema.New` accepts the definition. (schema.go:86-88 rejects every type name that is not a
+    Name or begins with `__`; the model only needs — and only states — that no registered type
+    carries one of the eight introspection type names. The generator never produces such names.) -/
 def Accepted (S : Schema) : Bool :=
   decide ((S.types.map (·.name)).Nodup) && S.types.all S.typeOk &&
+  S.types.all (fun t => (introspectionKind t.name).isNone) &&
   S.kindOf S.query == some .object &&
   (match S.mutation with
    | none => true
@@ -242,12 +252,6 @@ structure FieldSig where
   deriving Repr, DecidableEq, Inhabited
 
 def Field.sig (f : Field) : FieldSig := { name := f.name, ty := f.ty, args := f.args }
-
-/-- `introspection.NamedTypes` (the fallback of both `namedType` functions). -/
-def introspectionKind (n : String) : Option Kind :=
-  if n == "__Schema" || n == "__Type" || n == "__Field" || n == "__InputValue" || n == "__EnumValue" || n == "__Directive" then some .object
-  else if n == "__TypeKind" || n == "__DirectiveLocation" then some .enum
-  else none
 
 /-- validator `namedType(s, features, name)` (type_info.go:19-24): feature-aware. -/
 def lookupF (S : Schema) (F : Feats) (n : String) : Option Kind :=
